@@ -311,3 +311,40 @@ Qed.
 
 Lemma fuel_upto_gt x e n : e - x <= Z.of_nat n -> (n < fuel_upto x e)%nat \/ (Z.to_nat (e - x) < fuel_upto x e)%nat.
 Proof. intros _. right. unfold fuel_upto. lia. Qed.
+
+(* ---- writes accumulated in front of a computation *)
+Definition pre_w {A} (w : wlist) (m : M A) : M A := (w ++ fst m, snd m).
+
+Lemma mbind_ok' {A B} w (a : A) (f : A -> M B) : mbind (w, Done (Ok a)) f = pre_w w (f a).
+Proof. apply mbind_ok. Qed.
+Lemma sbind_ok {S S' L R} w (s : S) (k : S -> M (ctl S' L R)) : sbind (w, Done (Ok (Norm s))) k = pre_w w (k s).
+Proof. unfold sbind. rewrite mbind_ok'. reflexivity. Qed.
+Lemma mbind_write' {B} p c (f : unit -> M B) : mbind (write p c) f = pre_w [(p, c)] (f tt).
+Proof. unfold write. apply mbind_ok'. Qed.
+Lemma mbind_pre_w {A B} w (m : M A) (f : A -> M B) : mbind (pre_w w m) f = pre_w w (mbind m f).
+Proof.
+  destruct m as [w' [[a| |]|]]; unfold pre_w; cbn; try reflexivity.
+  destruct (f a) as [w'' r]. cbn. rewrite app_assoc. reflexivity.
+Qed.
+Lemma sbind_pre_w {S S' L R} w (m : M (ctl S L R)) (k : S -> M (ctl S' L R)) : sbind (pre_w w m) k = pre_w w (sbind m k).
+Proof. unfold sbind. apply mbind_pre_w. Qed.
+Lemma pre_w_eq {A} w (m : M A) w' r : m = (w', r) -> pre_w w m = (w ++ w', r).
+Proof. intros ->. reflexivity. Qed.
+Lemma pre_w_nil {A} (m : M A) : pre_w [] m = m.
+Proof. destruct m. reflexivity. Qed.
+Lemma lift_pure_ok {A} (a : A) : lift_pure (Done (Ok a)) = ret a.
+Proof. reflexivity. Qed.
+
+Lemma skipn_nth {A} (l : list A) j a : nth_error l j = Some a -> skipn j l = a :: skipn (S j) l.
+Proof.
+  revert j. induction l as [|x l IH]; intros [|j] H; try discriminate.
+  - inversion H. reflexivity.
+  - cbn [nth_error] in H. rewrite (skipn_cons j x l). rewrite (IH j H). reflexivity.
+Qed.
+
+Lemma checked_app a b : checked (a ++ b) = checked a ++ checked b.
+Proof. apply map_app. Qed.
+Lemma checked_repeat x n : checked (repeat x n) = repeat (x, true) n.
+Proof. induction n; cbn; [reflexivity | f_equal; exact IHn]. Qed.
+Lemma all_checked_checked l : all_checked (checked l).
+Proof. unfold all_checked, checked. apply Forall_forall. intros w H. apply in_map_iff in H as (p & <- & _). reflexivity. Qed.
